@@ -147,6 +147,12 @@ def r_bindings(ctx, model):
         got = as_sym(ev.get_attr(obj, name))
         ctx.check(is_zero(got - w), f"{obj.label}.{name} <- {text}", model.where(f"{obj.cls}.{name}"), expected=text, found=str(got),
                   explanation=f"{name} is not bound to the qha quantity {text}", key=f"{obj.label}.{name}")
+    # the pressure field itself on the (T, P) grid: the converted P(T, V) - which is the requested pressures along every isotherm, since interpolating the
+    # abscissa at the requested abscissae returns them - or the requested pressures laid out over the isotherms
+    got = as_sym(ev.get_attr(prs, "pressures"))
+    ctx.check(is_zero(got - conv(PTV / AU)) or is_zero(got - PDES / AU), f"{prs.label}.pressures <- v2p(P(T,V)) = requested pressures", model.where(f"{PRSBASE}.v2p"),
+              expected="v2p(volume_base.pressures), or desired_pressures along every isotherm", found=str(got),
+              explanation="the pressure field reported on the (T, P) grid is not the requested pressures along each isotherm", key=f"{prs.label}.pressures")
     # adapter wiring assumed by the seeds
     init = model.func(f"{ADAPTER}.__init__")
     stores = {}
